@@ -1355,7 +1355,7 @@ class Scene:
         if self.scale_settings:
             file.write('scalesettings\n{\n')
             for key, value in self.scale_settings.items():
-                file.write(f' "{key}" "{escape_text(value)}"\n')
+                file.write(f' "{escape_text(key)}" "{escape_text(value)}"\n')
             file.write('}\n')
 
         file.write(f'fps {self.fps}\n')
